@@ -122,7 +122,9 @@ def run(ctx):
     for inv in mc.invariant_violated:
         ctx.violation({"tlc_counterexample": mc.counterexample()[-1:]}, "TLC refuted invariant %s of P_C09" % inv)
     cases = core.replay_cases(ctx) or make_cases(ctx)
-    results = core.run_cases(ctx, "harness.lib", "call_parse", cases)
+    # a share of the cases runs on parsers that were all constructed before any of them was used (state shared behind
+    # the constructor would surface as another case's result)
+    results = core.run_cases_prebuilt(ctx, cases, lambda i: i % 4 == 0 and not ctx.replay, size=5)
     records, nabs = [], 0
     for i, (c, r) in enumerate(zip(cases, results)):
         records.append({"kind": "c09", "tid": i, "form": c["form"], "pref": c["pref"], "base": c["base"], "w": c["w"],
